@@ -8,6 +8,7 @@ From LV Require Import Base.Bytes Model.Obj Model.DocQ Model.PageTree Model.Trav
   Spec.Dfs Spec.DfsCounts Spec.RenumberSpec Spec.PageTreeEdit
   Proofs.RenumberProofsMap Proofs.PageTreeProofs Proofs.EditProofs Proofs.EditProofsTrav Proofs.EditProofsDelete
   Proofs.EditProofsCount Proofs.FilterProofsDict Proofs.EditProofsTree.
+From LV Require Proofs.EditProofsRes.
 
 Local Open Scope nat_scope.
 
@@ -344,7 +345,7 @@ Proof.
     pose proof (count_loop_chain (d_objects d1) _ ancs _ An NDa (anc_chain_fuel _ _ _ An NDa)) as CL.
     exists (with_objs d1 (dec_all (d_objects d1) ancs)).
     split; [|split; [|split; [|split; [|split]]]].
-    + intros pages n ns Ha. cbn [delete_pages_loop]. rewrite Ha, E. rewrite Hpd', CL. reflexivity.
+    + intros pages n ns Ha. cbn [delete_pages_loop]. rewrite Ha, E. rewrite EditProofsRes.dereference_dict. rewrite Hpd', CL. reflexivity.
     + unfold doc_wf. cbn [with_objs d_objects]. unfold sorted_keys. rewrite dec_all_keys. exact W1.
     + apply (page_doc_after d t p ci cg cat); try assumption.
       * cbn [with_objs d_objects]. rewrite dec_all_other; [exact Lc1|].
